@@ -74,8 +74,9 @@ func resolveTypes(env *Environment, errorSink *validation.ErrorSink) *Environmen
 			err := resolveType(t, context.currentNamespace, context.symbolTable, true)
 			if err != nil {
 				errorSink.Add(validationError(t, "%s", err.Error()))
-				break
 			}
+			// the type arguments have been visited: visiting them again would double the work at every level of nesting
+			return
 		}
 
 		self.VisitChildren(node, context)
@@ -116,8 +117,9 @@ func convertGenericReferences(env *Environment, errorSink *validation.ErrorSink)
 			err := resolveType(t, context.currentNamespace, context.symbolTable, false)
 			if err != nil {
 				errorSink.Add(validationError(t, "%s", err.Error()))
-				break
 			}
+			// the type arguments have been visited: visiting them again would double the work at every level of nesting
+			return
 		}
 
 		self.VisitChildren(node, context)
